@@ -210,6 +210,99 @@ def parents_map(root):
 _SWAP_OPS = {ast.NotEq: ast.Eq, ast.IsNot: ast.Is, ast.NotIn: ast.In, ast.Gt: ast.LtE, ast.GtE: ast.Lt}
 
 
+# method name -> (attribute walked by the outer loop, attribute walked by the inner loop) for generator methods of the tree
+# under analysis that are exactly `for a in self.X: for b in a.Y: yield b` (PageLayout.lines_iterator); filled by Repo._load
+# from the sources it is about to analyse, so a changed generator is simply not expanded (and differs from its reference)
+SIMPLE_GENERATORS = {}
+
+
+def scan_simple_generators(sources):
+    """sources: iterable of module source texts -> {name: (X, Y)} for uniquely named two-level walker generators."""
+    found, counts = {}, {}
+    for text in sources:
+        try:
+            tree = ast.parse(text)
+        except SyntaxError:
+            continue
+        for n in ast.walk(tree):
+            if not isinstance(n, (ast.FunctionDef, ast.AsyncFunctionDef)):
+                continue
+            counts[n.name] = counts.get(n.name, 0) + 1
+            body = [x for x in n.body if not (isinstance(x, ast.Expr) and isinstance(x.value, ast.Constant))]
+            if not (isinstance(n, ast.FunctionDef) and len(n.args.args) == 1 and n.args.args[0].arg == 'self' and not n.args.vararg and not n.args.kwarg
+                    and not n.args.kwonlyargs and not n.decorator_list and len(body) == 1 and isinstance(body[0], ast.For)):
+                continue
+            o = body[0]
+            if not (isinstance(o.target, ast.Name) and isinstance(o.iter, ast.Attribute) and isinstance(o.iter.value, ast.Name) and o.iter.value.id == 'self'
+                    and not o.orelse and len(o.body) == 1 and isinstance(o.body[0], ast.For)):
+                continue
+            i_ = o.body[0]
+            if isinstance(i_.target, ast.Name) and isinstance(i_.iter, ast.Attribute) and isinstance(i_.iter.value, ast.Name) and i_.iter.value.id == o.target.id \
+                    and not i_.orelse and len(i_.body) == 1 and isinstance(i_.body[0], ast.Expr) and isinstance(i_.body[0].value, ast.Yield) \
+                    and isinstance(i_.body[0].value.value, ast.Name) and i_.body[0].value.value.id == i_.target.id:
+                found[n.name] = (o.iter.attr, i_.iter.attr)
+    return {k: v for k, v in found.items() if counts.get(k) == 1}
+
+
+def _expand_simple_generators(tree):
+    """`for t in obj.lines_iterator(): B` is `for r in obj.regions: for t in r.lines: B` (B without a `break` of its own); the
+    same inside comprehensions."""
+    def walker(it):
+        if isinstance(it, ast.Call) and isinstance(it.func, ast.Attribute) and it.func.attr in SIMPLE_GENERATORS and not it.args and not it.keywords \
+                and isinstance(it.func.value, (ast.Name, ast.Attribute)) and dotted(it.func.value):
+            return it.func.value, SIMPLE_GENERATORS[it.func.attr]
+        return None
+
+    def own_break(body):
+        for st in body:
+            if isinstance(st, ast.Break):
+                return True
+            if isinstance(st, (ast.For, ast.While, ast.FunctionDef, ast.AsyncFunctionDef, ast.ClassDef)):
+                if isinstance(st, (ast.For, ast.While)) and own_break(st.orelse):
+                    return True
+                continue
+            for field in ('body', 'orelse', 'finalbody'):
+                sub = getattr(st, field, None)
+                if isinstance(sub, list) and sub and isinstance(sub[0], ast.stmt) and own_break(sub):
+                    return True
+            for h in getattr(st, 'handlers', []) or []:
+                if own_break(h.body):
+                    return True
+        return False
+
+    def outer_name(target):
+        return '%s__outer' % (target.id if isinstance(target, ast.Name) else 'item')
+
+    class G(ast.NodeTransformer):
+        def visit_For(self, n):
+            self.generic_visit(n)
+            w = walker(n.iter)
+            if w is None or n.orelse or own_break(n.body):
+                return n
+            obj, (x_, y_) = w
+            o = outer_name(n.target)
+            inner = ast.For(target=n.target, iter=ast.Attribute(value=ast.Name(id=o, ctx=ast.Load()), attr=y_, ctx=ast.Load()), body=n.body, orelse=[])
+            outer = ast.For(target=ast.Name(id=o, ctx=ast.Store()), iter=ast.Attribute(value=obj, attr=x_, ctx=ast.Load()), body=[ast.copy_location(inner, n)], orelse=[])
+            return ast.fix_missing_locations(ast.copy_location(outer, n))
+
+        def _comp(self, n):
+            self.generic_visit(n)
+            gens = []
+            for g in n.generators:
+                w = walker(g.iter)
+                if w is None or g.is_async:
+                    gens.append(g)
+                    continue
+                obj, (x_, y_) = w
+                o = outer_name(g.target)
+                gens.append(ast.comprehension(target=ast.Name(id=o, ctx=ast.Store()), iter=ast.Attribute(value=obj, attr=x_, ctx=ast.Load()), ifs=[], is_async=0))
+                gens.append(ast.comprehension(target=g.target, iter=ast.Attribute(value=ast.Name(id=o, ctx=ast.Load()), attr=y_, ctx=ast.Load()), ifs=g.ifs, is_async=0))
+            n.generators = gens
+            return ast.fix_missing_locations(n)
+        visit_ListComp = visit_SetComp = visit_GeneratorExp = visit_DictComp = _comp
+    return G().visit(tree)
+
+
 def normalise_tree(tree):
     """One control shape for equivalent phrasings, applied to every module when it is loaded (line numbers kept):
     annotated assignments become plain ones; a two-armed conditional whose test is negated (`not c`, `!=`, `is not`,
@@ -220,6 +313,18 @@ def normalise_tree(tree):
             if n.value is None:
                 return n
             return ast.copy_location(ast.Assign(targets=[n.target], value=n.value), n)
+
+        def visit_Call(self, n):
+            self.generic_visit(n)
+            # dict.fromkeys(xs[, constant]) is {k: constant for k in xs}
+            if isinstance(n.func, ast.Attribute) and n.func.attr == 'fromkeys' and isinstance(n.func.value, ast.Name) and n.func.value.id == 'dict' \
+                    and 1 <= len(n.args) <= 2 and not n.keywords and not any(isinstance(a, ast.Starred) for a in n.args) \
+                    and (len(n.args) == 1 or (isinstance(n.args[1], ast.Constant) and not isinstance(n.args[1].value, bytes))):
+                val = n.args[1] if len(n.args) == 2 else ast.Constant(value=None)
+                comp = ast.DictComp(key=ast.Name(id='k__fromkeys', ctx=ast.Load()), value=val, generators=[
+                    ast.comprehension(target=ast.Name(id='k__fromkeys', ctx=ast.Store()), iter=n.args[0], ifs=[], is_async=0)])
+                return ast.fix_missing_locations(ast.copy_location(comp, n))
+            return n
 
         def visit_If(self, n):
             self.generic_visit(n)
@@ -237,6 +342,8 @@ def normalise_tree(tree):
                 break
             return n
     tree = C().visit(tree)
+    if SIMPLE_GENERATORS:
+        tree = _expand_simple_generators(tree)
 
     def fold_loops(body):
         """`v = []` directly followed by `for t in it: v.append(e)` (optionally under one `if c:`)  ->  `v = [e for t in it if c]`."""
@@ -441,6 +548,18 @@ class Repo:
         self.inliner.run()
 
     def _load(self):
+        texts = []
+        for d in PKG_DIRS:
+            for dirpath, dirnames, filenames in os.walk(os.path.join(self.root, d)):
+                for fn in sorted(filenames):
+                    if fn.endswith('.py'):
+                        try:
+                            with open(os.path.join(dirpath, fn), encoding='utf-8') as f:
+                                texts.append(f.read())
+                        except OSError:
+                            pass
+        SIMPLE_GENERATORS.clear()
+        SIMPLE_GENERATORS.update(scan_simple_generators(texts))
         for d in PKG_DIRS:
             top = os.path.join(self.root, d)
             if not os.path.isdir(top):
@@ -1270,6 +1389,14 @@ def canon(expr, params=(), rename=None, consts=None):
             if fn and (fn.split('.')[0] in rename or fn.split('.')[0] in params) and fn.split('.')[0] != 'self':
                 fn = None           # method call on a local / parameter: the receiver is a term, not a name
             fn = _FN_ALIAS.get(fn, fn)
+            if isinstance(e.func, ast.Attribute) and e.func.attr == 'tolist' and not e.args and not e.keywords and isinstance(e.func.value, ast.Call) \
+                    and dotted(e.func.value.func) in ('np.asarray', 'np.array', 'numpy.asarray', 'numpy.array') and len(e.func.value.args) == 1 \
+                    and not e.func.value.keywords and isinstance(e.func.value.args[0], ast.List) and e.func.value.args[0].elts \
+                    and all(isinstance(r_, ast.List) for r_ in e.func.value.args[0].elts) \
+                    and len({len(r_.elts) for r_ in e.func.value.args[0].elts}) == 1 \
+                    and not any(isinstance(x_, (ast.List, ast.Tuple, ast.Starred)) for r_ in e.func.value.args[0].elts for x_ in r_.elts):
+                # np.asarray([[a, b], [c, d]]).tolist() of a visibly rectangular list of rows is that list
+                return c(e.func.value.args[0])
             if fn in ('sorted', 'min', 'max', 'sum', 'any', 'all', 'tuple', 'set', 'enumerate', 'len', 'np.array', 'np.asarray') and e.args \
                     and isinstance(e.args[0], ast.Call) and isinstance(e.args[0].func, ast.Name) and e.args[0].func.id == 'list' \
                     and len(e.args[0].args) == 1 and not e.args[0].keywords and fn not in ('len', 'np.array', 'np.asarray'):
@@ -1394,7 +1521,20 @@ def canon(expr, params=(), rename=None, consts=None):
                 return ('cmp', (op,), l, r)
             return ('cmp', tuple(type(o).__name__ for o in e.ops), c(e.left)) + tuple(c(x) for x in e.comparators)
         if isinstance(e, ast.BoolOp):
-            return (type(e.op).__name__.lower(),) + tuple(sorted((c(v) for v in e.values), key=repr))
+            opn = type(e.op).__name__.lower()
+            vals = []
+            for v in e.values:
+                t_ = c(v)
+                if isinstance(t_, tuple) and t_ and t_[0] == opn:
+                    vals.extend(t_[1:])          # (a and b) and c is a and b and c
+                else:
+                    vals.append(t_)
+            return (opn,) + tuple(sorted(vals, key=repr))
+        if isinstance(e, ast.IfExp) and isinstance(e.body, ast.Constant) and isinstance(e.orelse, ast.Constant) \
+                and isinstance(e.body.value, bool) and isinstance(e.orelse.value, bool) and e.body.value != e.orelse.value \
+                and isinstance(e.test, ast.Call) and dotted(e.test.func) in _RE_MATCHERS:
+            # a match object is always true: `True if re.match(..) else False` is `re.match(..) is not None`
+            return c(ast.Compare(left=e.test, ops=[ast.IsNot() if e.body.value else ast.Is()], comparators=[ast.Constant(value=None)]))
         if isinstance(e, ast.IfExp) and isinstance(e.body, ast.Constant) and isinstance(e.orelse, ast.Constant) \
                 and isinstance(e.body.value, bool) and isinstance(e.orelse.value, bool) and e.body.value != e.orelse.value \
                 and isinstance(e.test, (ast.Compare, ast.BoolOp)) or (isinstance(e, ast.IfExp) and isinstance(e.test, ast.UnaryOp) and isinstance(e.test.op, ast.Not)
@@ -1412,7 +1552,8 @@ def canon(expr, params=(), rename=None, consts=None):
             # `a if not c else b` is `b if c else a` (same orientation rule as for statements)
             if isinstance(t, ast.UnaryOp) and isinstance(t.op, ast.Not):
                 return c(ast.IfExp(test=t.operand, body=e.orelse, orelse=e.body))
-            if isinstance(t, ast.Compare) and len(t.ops) == 1 and type(t.ops[0]) in (ast.NotEq, ast.IsNot, ast.NotIn):
+            if isinstance(t, ast.Compare) and len(t.ops) == 1 and type(t.ops[0]) in (ast.NotEq, ast.IsNot, ast.NotIn, ast.LtE, ast.GtE) \
+                    and type(t.ops[0]) in _NEG_CMP:
                 return c(ast.IfExp(test=ast.Compare(left=t.left, ops=[_NEG_CMP[type(t.ops[0])]()], comparators=t.comparators), body=e.orelse, orelse=e.body))
             return ('ifexp', c(e.test), c(e.body), c(e.orelse))
         if isinstance(e, ast.Starred):
@@ -1437,8 +1578,28 @@ def canon(expr, params=(), rename=None, consts=None):
         if isinstance(e, ast.Set):
             return ('set',) + tuple(sorted((c(x) for x in e.elts), key=repr))
         if isinstance(e, ast.JoinedStr):
-            parts = [c(v) for v in e.values if not (isinstance(v, ast.Constant) and v.value == '')]
-            return ('fstr',) + tuple(parts)
+            parts = []
+            for v in e.values:
+                if isinstance(v, ast.Constant) and v.value == '':
+                    continue
+                t_ = c(v)
+                # a formatted string placed into a bare `{}` is spliced in: '{}_{}'.format('r{:03d}'.format(n), k) is 'r{:03d}_{}'.format(n, k)
+                if isinstance(t_, tuple) and len(t_) == 4 and t_[0] == 'fmt' and t_[2] == -1 and t_[3] is None and isinstance(t_[1], tuple) and t_[1][:1] == ('fstr',):
+                    parts.extend(t_[1][1:])
+                else:
+                    parts.append(t_)
+            merged = []
+            for t_ in parts:
+                if merged and t_[0] == 'const' and merged[-1][0] == 'const':
+                    try:
+                        a_, b_ = ast.literal_eval(merged[-1][1]), ast.literal_eval(t_[1])
+                        if isinstance(a_, str) and isinstance(b_, str):
+                            merged[-1] = ('const', repr(a_ + b_))
+                            continue
+                    except Exception:
+                        pass
+                merged.append(t_)
+            return ('fstr',) + tuple(merged)
         if isinstance(e, ast.FormattedValue):
             return ('fmt', c(e.value), e.conversion, c(e.format_spec) if e.format_spec else None)
         return ('raw', ' '.join(src(e).split()))
@@ -1482,6 +1643,9 @@ def canon(expr, params=(), rename=None, consts=None):
         return ('neg', t)
 
     return c(expr)
+
+
+_RE_MATCHERS = ('re.match', 're.search', 're.fullmatch')
 
 
 def canon_src(text, params=(), rename=None):
